@@ -4,7 +4,7 @@ use crate::engine::{par_blocks, sweep_strings, Budget, StrSpace};
 use crate::models::grammar::check_sentence;
 use crate::models::pos::pos_table;
 use crate::report::{esc, h64, Acc, Report, Tier, Violation};
-use crate::scopes::{load_suite, s_char, s_dir, s_props, s_tok, SIGMA_MIX};
+use crate::scopes::{load_suite, s_char, s_dir, s_esc, s_props, s_tok, SIGMA_MIX};
 use crate::subject::*;
 use saphyr::{LoadableYamlNode, MarkedYaml, MarkedYamlOwned, Yaml, YamlOwned};
 use saphyr_parser::{Parser, ScalarStyle};
@@ -48,6 +48,7 @@ pub fn plan(tier: Tier, n_quick: usize, n_thorough: usize, k_quick: usize, k_tho
             spaces.push(s_tok(k_quick));
             spaces.push(s_props(5));
             spaces.push(s_dir(4));
+            spaces.push(s_esc(4));
             SweepPlan { spaces, suite: true, suite_neighbourhood: false, gen: vec![(3, 2), (4, 1)] }
         }
         Tier::Thorough => {
@@ -55,6 +56,7 @@ pub fn plan(tier: Tier, n_quick: usize, n_thorough: usize, k_quick: usize, k_tho
             spaces.push(s_tok(k_thorough));
             spaces.push(s_props(6));
             spaces.push(s_dir(5));
+            spaces.push(s_esc(5));
             SweepPlan { spaces, suite: true, suite_neighbourhood: true, gen: vec![(4, 2), (5, 1)] }
         }
     }
